@@ -338,6 +338,9 @@ func feedsDirtyGuard(call *ssa.Call, isDirtyStore func(ssa.Instruction) bool) bo
 
 // lenOrdering: in every Len(), the fixed-header length is read after the remaining length was set.
 func (c *Ctx) lenOrdering() {
+	if _, ok := c.R.Rules["T3-dirty-discipline"]; !ok {
+		c.R.Rule("T3-dirty-discipline", "Len() reads the fixed-header length after setting the remaining length, so that the size reserved in the ring is the size Encode needs at every varint boundary.")
+	}
 	n := 0
 	for _, fn := range c.P.Funcs {
 		if fn.Pkg == nil || fn.Pkg.Pkg.Path() != pkgMessage || fn.Name() != "Len" || fn.Parent() != nil {
